@@ -148,7 +148,59 @@ def _run_rules(facts, prop, tier):
             ctx.results.append(Result(rd.rid, False, '<crate>', '', '%s||no-instances' % rd.rid,
                                       'rule evaluated zero instances (anchor missing)', {'anchor_missing': True}))
         ran.append(rd)
+    _split_undecided(ctx, facts, prop)
     return ctx, ran
+
+
+_PROP_FILES = {}
+
+
+def prop_files(prop):
+    """source files a property is anchored in (from properties.jsonl, which is fixed)"""
+    if not _PROP_FILES:
+        import json
+        here = os.path.dirname(os.path.dirname(os.path.abspath(__file__)))
+        for line in open(os.path.join(here, 'properties.jsonl')):
+            d = json.loads(line)
+            _PROP_FILES[d['id']] = list(d.get('anchors', {}).get('files', []))
+    return _PROP_FILES.get(prop, [])
+
+
+def changed_sources(facts, prop, extra_files=()):
+    """files (anchor files of the property + files of the functions its rules inspected) whose content differs from the
+    baseline on which every anchor was confirmed by hand (analysis/baseline_sources.json)"""
+    import json, hashlib
+    here = os.path.dirname(os.path.abspath(__file__))
+    base = json.load(open(os.path.join(here, 'baseline_sources.json')))['files']
+    out = []
+    for f in sorted(set(prop_files(prop)) | set(extra_files)):
+        if base.get(f) != facts.source_sha.get(f):
+            out.append(f)
+    return out
+
+
+def _split_undecided(ctx, facts, prop):
+    """Three-valued outcome. A rule that cannot find the construct it reasons about (AnchorMissing / zero instances) has
+    decided nothing. On the baseline sources this means the checker itself is broken and the rule fails closed. On sources that
+    differ from the baseline (the anchored code was rewritten) the clause is reported as UNDECIDED -- loudly, in the output and
+    the evidence -- but it is not a violation: the checker has no construct to point at."""
+    ctx.undecided = []
+    am = [r for r in ctx.results if not r.ok and r.details.get('anchor_missing')]
+    if not am:
+        return
+    files = set()
+    for bp in ctx.stats.get('bodies_inspected', ()):
+        for b in facts.by_path.get(bp, []):
+            f = b.file()
+            if f:
+                files.add(f)
+    changed = changed_sources(facts, prop, files)
+    if not changed:
+        return
+    for r in am:
+        r.details['changed_sources'] = changed
+        ctx.results.remove(r)
+        ctx.undecided.append(r)
 
 
 def _stable(s):
